@@ -46,6 +46,12 @@ structure Env where
 
 def Env.lt (env : Env) (a b : Bytes) : Bool := !env.le b a
 
+/-- bytewise lexicographic `a ≤ b`: Go's string comparison (the driver's `Env.le`) -/
+def bytesLe : Bytes → Bytes → Bool
+  | [], _ => true
+  | _ :: _, [] => false
+  | a :: as, b :: bs => a < b || (a == b && bytesLe as bs)
+
 abbrev TKey := Bytes × List Bytes
 abbrev TrialKey := TKey × Bytes × Bytes
 
